@@ -2094,6 +2094,10 @@ def wls_sparse(
     nobs = len(y)
     npar = X.shape[1]  # ==rank
     degrees_of_freedom_err = nobs - npar
+    assert degrees_of_freedom_err > 0, (
+        f"{nobs} observations are not enough to estimate {npar} parameters and "
+        "their uncertainty. Use more reference locations or more time steps."
+    )
     wresid = wy - wX.dot(p_sol)
     err_var = np.dot(wresid, wresid) / degrees_of_freedom_err
 
